@@ -61,7 +61,9 @@ DocOf(x) ==
 Defaults(g) == [b32 |-> Rec(g.defaults.b32), stk |-> Rec(g.defaults.stk), native |-> Rec(g.defaults.native), bondDenom |-> g.bondDenom]
 
 First(cs) == IF \E i \in 1..Len(cs) : cs[i] # OK THEN cs[CHOOSE i \in 1..Len(cs) : cs[i] # OK /\ \A k \in 1..(i - 1) : cs[k] = OK] ELSE OK
-Law(cond, g, d) == IF cond THEN OK ELSE <<g, d>>
+(* Known also carries "group|detail" names of laws the runner has already reported for this trace file: they are
+   masked so that the remaining laws are still evaluated and every distinct broken law is reported once. *)
+Law(cond, g, d) == IF cond \/ (g \o "|" \o d) \in Known THEN OK ELSE <<g, d>>
 
 (* raw store vs query views of one observation *)
 SlotsQ == {"s0", "s1", "s2", "s3", "s4", "s5", "s6", "s7"}
@@ -118,8 +120,8 @@ Split(name) == name   \* law names are "Group/detail"; printed as group = module
 
 (* first broken part law given the tolerated deviations; returns <<group, detail>> or OK *)
 PartLaw(tab, known, prefix) ==
-  LET bad(i) == ~tab[i][2] /\ ~(tab[i][3] # "" /\ tab[i][4] /\ tab[i][3] \in known)
-      sig(i) == IF tab[i][3] # "" /\ tab[i][4] THEN tab[i][3] ELSE tab[i][1]
+  LET sig(i) == IF tab[i][3] # "" /\ tab[i][4] THEN tab[i][3] ELSE tab[i][1]
+      bad(i) == ~tab[i][2] /\ ~(tab[i][3] # "" /\ tab[i][4] /\ tab[i][3] \in known) /\ (prefix \o "|" \o sig(i)) \notin known
   IN IF \E i \in 1..Len(tab) : bad(i)
      THEN LET i == CHOOSE j \in 1..Len(tab) : bad(j) /\ \A k \in 1..(j - 1) : ~bad(k) IN <<prefix, sig(i)>>
      ELSE OK
@@ -161,7 +163,7 @@ DoGenesis ==
 DoRoundTrip ==
   /\ Ev.ev = "RoundTrip"
   /\ UNCHANGED G
-  /\ IF Ev.failed # "none" THEN Settle(<<"RoundTrip", "export-import-or-continuation-failed">>) /\ UNCHANGED <<cls, used>>
+  /\ IF Ev.failed # "none" THEN Settle(Law(FALSE, "RoundTrip", "export-import-or-continuation-failed")) /\ UNCHANGED <<cls, used>>
      ELSE
      LET D == Defaults(G)
          WA == WorldOf(Ev.A)   WB == WorldOf(Ev.B)
@@ -189,7 +191,9 @@ DoRoundTrip ==
                       f7 == IF WA.stor # NZ(WA.stor) THEN Bump(f6, "with.zero-valued-slots") ELSE f6
                       f8 == IF \E a \in DOMAIN WA.cpc.meta : WA.cpc.meta[a].disabled THEN Bump(f7, "with.disabled-flag") ELSE f7
                       f9 == IF UsedDevs(tab, Known) = {} /\ c = OK THEN Bump(f8, "clean") ELSE f8
-                  IN f9
+                      f10 == IF Ev.A.fm.onFracFloor THEN Bump(f9, "with.basefee-on-floor-of-fractional-min-gas-price") ELSE f9
+                      f11 == IF Ev.A.fm.belowMinGasPrice THEN Bump(f10, "with.basefee-below-min-gas-price") ELSE f10
+                  IN f11
 
 TraceNext ==
   /\ l <= Len(Trace)
